@@ -95,38 +95,38 @@ inline void option_program(Tins::PDU& layer, Src& s, std::vector<std::string>& p
             if (TCP* t = dynamic_cast<TCP*>(&layer)) {
                 uint8_t code = (uint8_t)s.edgy(8);
                 if (remove) { bool r = t->remove_option((TCP::OptionTypes)code); d << "TCP::remove_option(" << (int)code << ")=" << r; }
-                else { std::vector<uint8_t> b = s.bytes(gen_len(s, 38)); t->add_option(TCP::option((TCP::OptionTypes)code, adv_len(s, b.size(), spoof, 255), b.begin(), b.end())); d << "TCP::add_option(" << (int)code << "," << hex(b) << ")"; }
+                else { std::vector<uint8_t> b = s.bytes(gen_len(s, 38)); { TCP::option o_((TCP::OptionTypes)code, adv_len(s, b.size(), spoof, 255), b.begin(), b.end()); if (b.size() & 1) t->add_option(o_); else t->add_option(std::move(o_)); } d << "TCP::add_option(" << (int)code << "," << hex(b) << ")"; }
             } else if (IP* ip = dynamic_cast<IP*>(&layer)) {
                 uint8_t raw = (uint8_t)s.edgy(8);
                 IP::option_identifier id((IP::OptionNumber)(raw & 0x1f), (IP::OptionClass)((raw >> 5) & 3), (small_uint<1>)(raw >> 7));
                 if (remove) { bool r = ip->remove_option(id); d << "IP::remove_option(" << (int)raw << ")=" << r; }
-                else { std::vector<uint8_t> b = s.bytes(gen_len(s, 38)); ip->add_option(IP::option(id, adv_len(s, b.size(), spoof, 255), b.begin(), b.end())); d << "IP::add_option(" << (int)raw << "," << hex(b) << ")"; }
+                else { std::vector<uint8_t> b = s.bytes(gen_len(s, 38)); { IP::option o_(id, adv_len(s, b.size(), spoof, 255), b.begin(), b.end()); if (b.size() & 1) ip->add_option(o_); else ip->add_option(std::move(o_)); } d << "IP::add_option(" << (int)raw << "," << hex(b) << ")"; }
             } else if (IPv6* v6 = dynamic_cast<IPv6*>(&layer)) {
                 static const uint8_t EH[] = {0, 43, 44, 60, 51, 50, 135, 59, 6, 17};
                 uint8_t code = s.chance(80) ? EH[s.pick(sizeof EH)] : (uint8_t)s.edgy(8);
                 std::vector<uint8_t> b = s.bytes(gen_len(s, 255));
-                v6->add_header(IPv6::ext_header(code, b.begin(), b.end()));
+                { IPv6::ext_header o_(code, b.begin(), b.end()); if (b.size() & 1) v6->add_header(o_); else v6->add_header(std::move(o_)); }
                 d << "IPv6::add_header(" << (int)code << "," << hex(b) << ")";
             } else if (DHCP* dh = dynamic_cast<DHCP*>(&layer)) {
                 uint8_t code = (uint8_t)s.edgy(8);
                 if (remove) { bool r = dh->remove_option((DHCP::OptionTypes)code); d << "DHCP::remove_option(" << (int)code << ")=" << r; }
-                else { std::vector<uint8_t> b = s.bytes(gen_len(s, 255)); dh->add_option(DHCP::option(code, adv_len(s, b.size(), spoof, 255), b.begin(), b.end())); d << "DHCP::add_option(" << (int)code << "," << hex(b) << ")"; }
+                else { std::vector<uint8_t> b = s.bytes(gen_len(s, 255)); { DHCP::option o_(code, adv_len(s, b.size(), spoof, 255), b.begin(), b.end()); if (b.size() & 1) dh->add_option(o_); else dh->add_option(std::move(o_)); } d << "DHCP::add_option(" << (int)code << "," << hex(b) << ")"; }
             } else if (DHCPv6* d6 = dynamic_cast<DHCPv6*>(&layer)) {
                 uint16_t code = (uint16_t)s.edgy(16);
                 if (remove) { bool r = d6->remove_option((DHCPv6::OptionTypes)code); d << "DHCPv6::remove_option(" << code << ")=" << r; }
-                else { std::vector<uint8_t> b = s.bytes(gen_len(s, 300)); d6->add_option(DHCPv6::option(code, adv_len(s, b.size(), spoof, 65535), b.begin(), b.end())); d << "DHCPv6::add_option(" << code << "," << hex(b) << ")"; }
+                else { std::vector<uint8_t> b = s.bytes(gen_len(s, 300)); { DHCPv6::option o_(code, adv_len(s, b.size(), spoof, 65535), b.begin(), b.end()); if (b.size() & 1) d6->add_option(o_); else d6->add_option(std::move(o_)); } d << "DHCPv6::add_option(" << code << "," << hex(b) << ")"; }
             } else if (ICMPv6* i6 = dynamic_cast<ICMPv6*>(&layer)) {
                 uint8_t code = (uint8_t)s.edgy(8);
                 if (remove) { bool r = i6->remove_option((ICMPv6::OptionTypes)code); d << "ICMPv6::remove_option(" << (int)code << ")=" << r; }
-                else { std::vector<uint8_t> b = s.bytes(gen_len(s, 255)); i6->add_option(ICMPv6::option(code, adv_len(s, b.size(), spoof, 255), b.begin(), b.end())); d << "ICMPv6::add_option(" << (int)code << "," << hex(b) << ")"; }
+                else { std::vector<uint8_t> b = s.bytes(gen_len(s, 255)); { ICMPv6::option o_(code, adv_len(s, b.size(), spoof, 255), b.begin(), b.end()); if (b.size() & 1) i6->add_option(o_); else i6->add_option(std::move(o_)); } d << "ICMPv6::add_option(" << (int)code << "," << hex(b) << ")"; }
             } else if (Dot11* d11 = dynamic_cast<Dot11*>(&layer)) {
                 uint8_t code = (uint8_t)s.edgy(8);
                 if (remove) { bool r = d11->remove_option((Dot11::OptionTypes)code); d << "Dot11::remove_option(" << (int)code << ")=" << r; }
-                else { std::vector<uint8_t> b = s.bytes(gen_len(s, 255)); d11->add_option(Dot11::option(code, adv_len(s, b.size(), spoof, 255), b.begin(), b.end())); d << "Dot11::add_option(" << (int)code << "," << hex(b) << ")"; }
+                else { std::vector<uint8_t> b = s.bytes(gen_len(s, 255)); { Dot11::option o_(code, adv_len(s, b.size(), spoof, 255), b.begin(), b.end()); if (b.size() & 1) d11->add_option(o_); else d11->add_option(std::move(o_)); } d << "Dot11::add_option(" << (int)code << "," << hex(b) << ")"; }
             } else if (PPPoE* pe = dynamic_cast<PPPoE*>(&layer)) {
                 uint16_t code = (uint16_t)s.edgy(16);
                 std::vector<uint8_t> b = s.bytes(gen_len(s, 300));
-                pe->add_tag(PPPoE::tag((PPPoE::TagTypes)code, adv_len(s, b.size(), spoof, 65535), b.begin(), b.end()));
+                { PPPoE::tag o_((PPPoE::TagTypes)code, adv_len(s, b.size(), spoof, 65535), b.begin(), b.end()); if (b.size() & 1) pe->add_tag(o_); else pe->add_tag(std::move(o_)); }
                 d << "PPPoE::add_tag(" << code << "," << hex(b) << ")";
             } else if (RTP* rtp = dynamic_cast<RTP*>(&layer)) {
                 uint32_t v = (uint32_t)s.edgy(32);
